@@ -6,6 +6,7 @@ repository's *current* working tree with the logged mechanical rewrites.
 """
 import os
 import re
+import hashlib
 import shlex
 
 from . import extract as X
@@ -114,6 +115,10 @@ def parse_template(path):
                     meta['trusted'].append(tr)
         elif word == 'trusted':
             meta.setdefault('trusted', []).append(rest)
+        elif word == 'strconsts':
+            pr = BT.findall(rest)
+            kv, _ = parse_kv(BT.sub('', rest))
+            items.append(('strconsts', dict(file=kv['file'], names=kv['names'].split(','), lemma=kv['lemma'], label=pr[0] if pr else ''), i))
         elif word == 'assume':
             meta.setdefault('assume', []).append(rest)
         elif word == 'gsubst':
@@ -718,6 +723,49 @@ def extract_type(repo, blk, meta):
     return dict(lines=lines, log=log, hash=h, file=rel, line=src_line, name=kv['name'])
 
 
+def extract_strconsts(repo, kv, tline):
+    """R38: `const NAME: &str = "literal";` items are copied from the source (type spelled `&'static str`), and a lemma stating that the
+    named constants are pairwise different strings is GENERATED from the literals the source has on this run (reveal_strlit + a witness per
+    pair: a different length or the first index at which they differ). Two equal literals leave their pair without witness: the lemma fails."""
+    rel = kv['file']
+    src, toks = X.load(repo, rel)
+    lits = []
+    lines = []
+    log = []
+    for nm in kv['names']:
+        m = re.search(r'\bconst\s+%s\s*:\s*&\s*(?:\'static\s+)?str\s*=\s*"([^"\\\\]*)"\s*;' % re.escape(nm), src)
+        if not m:
+            raise X.LostAnchor('%s: string constant %s not found (or its literal has an escape)' % (rel, nm))
+        line = src[:m.start()].count('\n') + 1
+        lits.append((nm, m.group(1), line))
+        lines.append(("pub const %s: &'static str = \"%s\";" % (nm, m.group(1)), dict(kind='src', fn=nm, file=rel, line=line)))
+        log.append(('R38', 'string constant %s copied from the source' % nm, line))
+    org = dict(kind='tmpl', tline=tline)
+    short = ' '.join(re.findall(r'\[C\d\d\.[^\]]+\]', kv['label']))
+    lines.append(('/// %s' % kv['label'], org))
+    lines.append(('pub proof fn %s()' % kv['lemma'], org))
+    lines.append(('    ensures', org))
+    body = []
+    for (n, l, _) in lits:
+        body.append('    reveal_strlit("%s");' % l)
+    for a in range(len(lits)):
+        for b in range(a + 1, len(lits)):
+            na, la, _ = lits[a]
+            nb, lb, _ = lits[b]
+            lines.append(('        %s@ != %s@,       // %s' % (na, nb, short), org))
+            if len(la) != len(lb):
+                body.append('    assert(%s@.len() == %d && %s@.len() == %d);' % (na, len(la), nb, len(lb)))
+            else:
+                d = [k for k in range(len(la)) if la[k] != lb[k]]
+                if d:
+                    body.append('    assert(%s@[%d] != %s@[%d]);' % (na, d[0], nb, d[0]))
+    lines.append(('{', org))
+    lines += [(b, org) for b in body]
+    lines.append(('}', org))
+    log.append(('R38', 'lemma %s generated from %d literals (%d pairs)' % (kv['lemma'], len(lits), len(lits) * (len(lits) - 1) // 2), 0))
+    return dict(lines=lines, log=log, hash=hashlib.sha256(repr(lits).encode()).hexdigest()[:16], file=rel, line=lits[0][2] if lits else 0, name='string constants ' + kv['lemma'])
+
+
 SPEC_KW = ('requires', 'ensures', 'invariant', 'invariant_except_break', 'decreases', 'recommends', 'returns',
            'no_unwind', 'opens_invariants')
 
@@ -780,6 +828,11 @@ def generate(repo, template, mode=None, isolate=False):
     for it in items:
         if it[0] == 'text':
             em.emit_lines([(it[1], dict(kind='tmpl', tline=it[2]))])
+            continue
+        if it[0] == 'strconsts':
+            r = extract_strconsts(repo, it[1], it[2])
+            em.emit_lines(r['lines'])
+            types.append(r)
             continue
         blk = it[1]
         if blk.kind == 'macro':
